@@ -23,7 +23,7 @@ func init() {
 		PropCheck: "c08_prop_bad_ids",
 		Gen:       func(tier string, r *rand.Rand) []Case { return simGen(tier, r, "C08") },
 		Run:       simRunJSON,
-		Rule:      "network simulations (n real instances for the honest participants, scripted Byzantine participants, random admissible delivery orders): plain VSS vector kind x share kind x order; Qual/Joint dealer faults (vector kind x phase, share kind per receiver, answer kind per complainer, unsolicited answers, garbage broadcasts) and complainer faults (spurious / duplicate / late / malformed complaints), > t and exactly t complaints, order hints (share-first, vector-first, answers-first, complaints-first); audit families: the vector defects at the first / a middle / the last position and all at once, one whole point too many / too few, points of E2 with a small-order component (a point of order 13, a G2 point plus it) first and last, the identical vector twice, wrong-then-right and right-twice shares and answers, shares / answers one byte too long, complaint / answer indices n and 255, a bare complaint tag, nil instead of empty messages; a vector whose defect (an order-13 shift of one coefficient) stays consistent with the share of the participant at evaluation point 13; a colluding Byzantine complainer answered in every way, also before its complaint; a different share defect per receiver and a different answer per complainer; polynomials with a root at a participant's point (its correct share is 0); two faulty dealers of different kinds and two dealers with one polynomial (Joint); thresholds t >= n/2 (n = 2..5); n = 254 with indices up to 253 (sampled receivers); plain VSS with an honest dealer and a Byzantine impostor; runner-side: byte-slice arguments unmodified after every call; non-trivial if an event was emitted; distinct by scenario; Horner coincidences in a participant's public share (x*A_t = +-A_{t-1}, x*acc = A_0) with an otherwise honest scripted dealer that counts as honest; 2..t complainers of which some are answered and some not, in every position",
+		Rule:      "network simulations (n real instances for the honest participants, scripted Byzantine participants, random admissible delivery orders): plain VSS vector kind x share kind x order; Qual/Joint dealer faults (vector kind x phase, share kind per receiver, answer kind per complainer, unsolicited answers, garbage broadcasts) and complainer faults (spurious / duplicate / late / malformed complaints), > t and exactly t complaints, order hints (share-first, vector-first, answers-first, complaints-first); audit families: the vector defects at the first / a middle / the last position and all at once, one whole point too many / too few, points of E2 with a small-order component (a point of order 13, a G2 point plus it) first and last, the identical vector twice, wrong-then-right and right-twice shares and answers, shares / answers one byte too long, complaint / answer indices n and 255, a bare complaint tag, nil instead of empty messages; a vector whose defect (an order-13 shift of one coefficient) stays consistent with the share of the participant at evaluation point 13; a colluding Byzantine complainer answered in every way, also before its complaint; a different share defect per receiver and a different answer per complainer; polynomials with a root at a participant's point (its correct share is 0); two faulty dealers of different kinds and two dealers with one polynomial (Joint); thresholds t >= n/2 (n = 2..5); n = 254 with indices up to 253 (sampled receivers); plain VSS with an honest dealer and a Byzantine impostor; runner-side: byte-slice arguments unmodified after every call; non-trivial if an event was emitted; distinct by scenario; Horner coincidences in a participant's public share (x*A_t = +-A_{t-1}, x*acc = A_0) with an otherwise honest scripted dealer that counts as honest; 2..t complainers of which some are answered and some not, in every position; shares and answers equal to the negation r - s and to s + (r-1)/2; a dealer disqualified in round 1 that pre-answered a complaint and withholds that share; returned keys must be valid keys (oracle)",
 		Shard:     12,
 	})
 }
